@@ -3,6 +3,8 @@ package main
 // govc check --prop Cxx --tier quick|thorough : the registered property check.
 
 import (
+	"regexp"
+	"reflect"
 	"encoding/json"
 	"flag"
 	"fmt"
@@ -260,6 +262,11 @@ func cmdCheck(args []string) int {
 	os.RemoveAll(outDir)
 	os.MkdirAll(outDir, 0o755)
 	solveAll(units, outDir, timeout, seed, 16)
+	for _, sd := range cs.Structurals {
+		if hasProp(sd.Props, *prop) {
+			units = append(units, cx.structuralUnit(sd))
+		}
+	}
 
 	known := loadKnownFindings()
 	claims := loadClaims(*prop)
@@ -515,4 +522,96 @@ func writeReplay(cx *Ctx, dir, prop string, ur *UnitResult, r *OblResult) string
 	}
 	writeJSON(rp, m)
 	return rp
+}
+
+// structuralUnit decides a type-level obligation over the loaded packages: one obligation per matching struct field,
+// plus one that the rule matches at least one field (vacuity). Decided by go/types, reported under solver "go/types".
+func (cx *Ctx) structuralUnit(sd *Structural) *UnitResult {
+	ur := &UnitResult{Name: "structural " + sd.Name, Unit: cx.newUnit("structural " + sd.Name)}
+	fre, err := regexp.Compile(sd.Fields)
+	if err != nil {
+		ur.Err = "structural " + sd.Name + ": bad fields regexp: " + err.Error()
+		return ur
+	}
+	var xre *regexp.Regexp
+	if sd.Except != "" {
+		if xre, err = regexp.Compile(sd.Except); err != nil {
+			ur.Err = "structural " + sd.Name + ": bad except regexp: " + err.Error()
+			return ur
+		}
+	}
+	okType := func(t types.Type) bool {
+		for {
+			t = types.Unalias(t)
+			if p, ok := t.(*types.Pointer); ok {
+				t = p.Elem()
+				continue
+			}
+			break
+		}
+		n, ok := t.(*types.Named)
+		if !ok {
+			return false
+		}
+		for _, want := range sd.Types {
+			if n.Obj().Name() == want {
+				return true
+			}
+		}
+		return false
+	}
+	var paths []string
+	for path := range cx.pkgs {
+		for _, pre := range sd.In {
+			if strings.HasPrefix(path, pre) {
+				paths = append(paths, path)
+				break
+			}
+		}
+	}
+	sort.Strings(paths)
+	matched := 0
+	for _, path := range paths {
+		pk := cx.pkgs[path]
+		if pk.Types == nil {
+			continue
+		}
+		sc := pk.Types.Scope()
+		for _, name := range sc.Names() {
+			tn, ok := sc.Lookup(name).(*types.TypeName)
+			if !ok {
+				continue
+			}
+			st, ok := tn.Type().Underlying().(*types.Struct)
+			if !ok {
+				continue
+			}
+			for i := 0; i < st.NumFields(); i++ {
+				yn := reflect.StructTag(st.Tag(i)).Get("yaml")
+				if j := strings.Index(yn, ","); j >= 0 {
+					yn = yn[:j]
+				}
+				if yn == "" || yn == "-" || !fre.MatchString(yn) || (xre != nil && xre.MatchString(yn)) {
+					continue
+				}
+				matched++
+				f := st.Field(i)
+				pos := cx.fset.Position(f.Pos())
+				o := &Obl{ID: fmt.Sprintf("structural:%s/%s.%s.%s", sd.Name, pk.Types.Name(), name, f.Name()), Kind: "structural", Pos: pos,
+					Desc: fmt.Sprintf("field %s.%s (yaml %q) of type %s must have one of the types %v", name, f.Name(), yn, f.Type(), sd.Types)}
+				r := &OblResult{Obl: o, Solver: "go/types", Status: "unsat"}
+				if !okType(f.Type()) {
+					r.Status = "sat"
+					r.Output = fmt.Sprintf("%s: field %s.%s (yaml %q) has type %s", pos, name, f.Name(), yn, f.Type())
+				}
+				ur.Results = append(ur.Results, r)
+			}
+		}
+	}
+	cov := &OblResult{Obl: &Obl{ID: "structural:" + sd.Name + "/cover", Kind: "cover", Cover: true, Desc: "the rule matches at least one field"}, Solver: "go/types", Status: "sat"}
+	if matched == 0 {
+		cov.Status = "unsat"
+	}
+	ur.Results = append(ur.Results, cov)
+	return ur
 }
